@@ -252,7 +252,7 @@ func c05Ops(v11 bool, withWrong bool) []c05Op {
 	return ops
 }
 
-func c05Inits() []c05Init {
+func c05Inits(long bool) []c05Init {
 	var out []c05Init
 	type fo struct {
 		name string
@@ -266,12 +266,17 @@ func c05Inits() []c05Init {
 	}
 	fos := []fo{{"nofopts", 0}, {"fopts1cmd", 2}, {"fopts15", 15}}
 	frs := []fr{{"nopayload", -1, 0, false}, {"port0empty", 0, 0, false}, {"port0cmds", 0, 9, true}, {"app1", 1, 1, false}, {"app16", 10, 16, false}, {"app17", 10, 17, false}, {"app50", 200, 50, false}}
+	if long {
+		// frames up to the 255-byte maximum (MHDR 1 + FHDR 7..22 + FPort 1 + FRMPayload + MIC 4)
+		fos = []fo{{"nofopts", 0}, {"fopts15", 15}}
+		frs = []fr{{"app227", 10, 227, false}, {"app231", 10, 231, false}, {"app232", 10, 232, false}, {"app242", 10, 242, false}, {"port0cmds240", 0, 240, true}}
+	}
 	for _, v11 := range []bool{false, true} {
 		for _, uplink := range []bool{true, false} {
 			for _, confirmed := range []bool{false, true} {
 				for _, o := range fos {
 					for _, r := range frs {
-						if r.port == 0 && o.n > 0 {
+						if r.port == 0 && o.n > 0 || 1+7+o.n+1+r.n+4 > 255 {
 							continue
 						}
 						f := spec.DataFrame{DevAddr: 0x01AB02CD, FCnt: 0x00030007, ADR: true, ACK: confirmed}
@@ -317,10 +322,11 @@ func runC05(r *engine.Run) {
 	r.Rule = "E2 + E1. Exchange histories: explicit-state BFS (depth 8 quick / 10 thorough, 14 operations incl. wrong-key / wrong-parameter variants) from all initial frames {no FOpts, 1 command, 15 bytes of commands} x {no payload, port 0 without payload, port-0 commands, 1/16/17/50 application bytes} x {up, down} x {1.0, 1.1} x {unconfirmed, confirmed+ACK}; operations: EncryptFRMPayload, EncryptFOpts (1.1), SetMIC, Transfer (MarshalBinary -> fresh UnmarshalBinary, counter drops to 16 bits), TransferAsText (the same through MarshalText / UnmarshalText), SetFCnt32, ValidateMIC, DecryptFOpts (1.1), DecryptFRMPayload; the explored object is the real frame paired with the abstract frame of the reference model (bytes of FOpts/FRMPayload, their form, MIC, current counter), stepped in lock-step: every operation's error/no-error, every Validate result (= carried MIC equals the specification MIC of the current content under the parameters used), the serialisation after every transition and the decoded command lists are compared; states whose content the model leaves unspecified (decrypting with the wrong key into a non-canonical command stream) are counted and not expanded. Tamper (E1): on the same frames, every single-bit flip of the serialised frame and every single-parameter mismatch (each of the 128 bits of each key, each of the 16 upper FCnt bits, ConfFCnt, txDR, txCh, MAC version, direction); the receiver either fails to decode or Validate answers carriedMIC == specification MIC of the received content under its parameters."
 	frameHistory(r, 2)
 	cryptoHistory(r)
+	manySessions(r)
 	r.Assume("keys are fixed distinguishing values; single-bit walks over all key bits are part of the tamper enumeration; data independence for opaque bytes")
 	r.Assume("canonical state = deep print of the real frame plus the model's abstract frame; equal deep prints are indistinguishable to every method")
 
-	inits := c05Inits()
+	inits := c05Inits(false)
 	chosen := inits
 	depth := 8
 	if r.Thorough() {
@@ -415,7 +421,7 @@ func runC05(r *engine.Run) {
 	r.Extra("unspecified_states_pruned", totalPruned)
 
 	// ---- tamper (E1)
-	tam := inits
+	tam := append(append([]c05Init(nil), inits...), c05Inits(true)...)
 	r.PartDims("tamper", []string{fmt.Sprintf("frame:%d (shapes x direction x version x confirmed)", len(tam)), "every bit of the serialised frame", "parameter mismatches: 128+128 key bits, 16 upper FCnt bits, ConfFCnt, txDR, txCh, version, direction"}, uint64(len(tam)), func(c *engine.Case) {
 		in := &tam[c.Index]
 		f := in.frame
